@@ -400,10 +400,10 @@ type Verdict struct {
 var Quiet = func(f func()) { f() }
 
 type remembered struct {
-	c                   *Case
-	pre                 ModelOut
-	again               func(map[string]any) ImplOut
-	extra               map[string]func(*model.Interp, *gen.Node) (any, error)
+	c                    *Case
+	pre                  ModelOut
+	again                func(map[string]any) ImplOut
+	extra                map[string]func(*model.Interp, *gen.Node) (any, error)
 	checkPoint, checkPos bool
 }
 
